@@ -32,6 +32,9 @@ CLASSES = {
     "ResidueAuth": {"kind": "object", "frozen": True, "fields": {}},
     "Residue": {"kind": "object", "frozen": True, "lt": "res_lt",
                 "fields": {"label": "opt[ResidueLabel]", "auth": "opt[ResidueAuth]", "chain": "str", "number": "int", "icode": "opt[str]"}},
+    # Enum members are singletons; LeontisWesthof.reverse (a property defined in common.py) is a pure function of the member:
+    # an attribute of the interned value (its concrete table is not needed by anything proved here)
+    "LeontisWesthof": {"kind": "object", "frozen": True, "fields": {"reverse": "LeontisWesthof"}},
     "Residue3D": {"kind": "object", "frozen": True,
                   "fields": {"chain": "str", "number": "int", "one_letter_name": "str", "is_nucleotide": "bool"}},
     # residue_map: Dict[Union[ResidueLabel, ResidueAuth], Residue3D]; a label never equals an auth (different dataclasses),
@@ -46,8 +49,8 @@ CLASSES = {
     # frozen dataclasses with generated field-wise __eq__/__hash__: records.  `saenger` (Optional[Saenger]) is only copied and
     # compared by the code under contract, never inspected (is_canonical is abstracted, the sort key is not evaluated):
     # an opaque scalar code (None is one of the codes)
-    "BasePair": {"kind": "record", "fields": {"nt1": "Residue", "nt2": "Residue", "lw": "enum[LeontisWesthof]", "saenger": "int"}},
-    "BasePair3D": {"kind": "record", "fields": {"nt1": "Residue", "nt2": "Residue", "lw": "enum[LeontisWesthof]", "saenger": "int",
+    "BasePair": {"kind": "record", "fields": {"nt1": "Residue", "nt2": "Residue", "lw": "LeontisWesthof", "saenger": "int"}},
+    "BasePair3D": {"kind": "record", "fields": {"nt1": "Residue", "nt2": "Residue", "lw": "LeontisWesthof", "saenger": "int",
                                                 "nt1_3d": "Residue3D", "nt2_3d": "Residue3D"}},
 }
 
@@ -352,24 +355,36 @@ def no_self(C):
 
 
 @spec
+def same_ends(x, y):
+    """the two entries join the same two residues (in either orientation)"""
+    return (x.nt1_3d == y.nt1_3d and x.nt2_3d == y.nt2_3d) or (x.nt1_3d == y.nt2_3d and x.nt2_3d == y.nt1_3d)
+
+
+@spec
+def conflict(x, y):
+    """the two entries compete for a residue: one in common, but not the same two residues"""
+    return shares(x, y) and not same_ends(x, y)
+
+
+@spec
 def removed_conflicted(C, C0):
-    """every pair of C0 that is no longer in C shares a residue with another pair of C0"""
+    """for every pair of C0: an entry joining its two residues is still in C, or it has a competitor in C0"""
     return forall(lambda a: implies(0 <= a and a < len(C0),
-                                    exists(lambda b: 0 <= b and b < len(C) and C[b] == C0[a])
-                                    or exists(lambda a2: 0 <= a2 and a2 < len(C0) and C0[a2] != C0[a] and shares(C0[a], C0[a2]))))
+                                    exists(lambda b: 0 <= b and b < len(C) and same_ends(C[b], C0[a]))
+                                    or exists(lambda a2: 0 <= a2 and a2 < len(C0) and conflict(C0[a], C0[a2]))))
 
 
 @spec
 def filtered_in(C0, SRC, BP):
-    """C0 is a subsequence of the pairs of BP that pass the canonical filter, SRC its strictly increasing index map"""
+    """C0 is a subsequence of canonical pairs of BP, SRC its strictly increasing index map"""
     return (len(SRC) == len(C0) and 0 <= len(C0) and len(C0) <= len(BP)
-            and forall(lambda k: implies(0 <= k and k < len(C0), 0 <= SRC[k] and SRC[k] < len(BP) and C0[k] == BP[SRC[k]] and canon(C0[k])))
+            and forall(lambda k: implies(0 <= k and k < len(C0), 0 <= SRC[k] and SRC[k] < len(BP) and C0[k] == BP[SRC[k]] and C0[k].is_canonical))
             and forall(lambda k1, k2: implies(0 <= k1 and k1 < k2 and k2 < len(C0), SRC[k1] < SRC[k2])))
 
 
 @spec
 def filtered_all(C0, SRC, BP):
-    """... and holds every pair of BP that passes the filter"""
+    """... and holds every canonical pair of BP that is given in 5'->3' orientation"""
     return forall(lambda p: implies(0 <= p and p < len(BP) and canon(BP[p]), exists(lambda k: 0 <= k and k < len(C0) and SRC[k] == p)))
 
 
@@ -416,6 +431,7 @@ class base_pairs_callee:
     requires = []
     returns = "list[rec[BasePair3D]]"
     ensures = ["result == self.base_pairs_value", "distinct(result)",
+               "lifted_from(self, result, len(self.base_pairs2d))", "lifts_all(self, result, len(self.base_pairs2d))",
                "implies(no_self_pairs(self), no_self(result))"]
     raises = []
     modifies = []
@@ -433,6 +449,93 @@ def no_self_pairs(m):
     return forall(lambda t: implies(0 <= t and t < len(m.base_pairs2d)
                                     and not is_none(found(m, m.base_pairs2d[t].nt1)) and not is_none(found(m, m.base_pairs2d[t].nt2)),
                                     found(m, m.base_pairs2d[t].nt1) != found(m, m.base_pairs2d[t].nt2)))
+
+
+# ------------------------------------------------------------------------------------------------ target 3
+class reverse:
+    """BasePair3D.reverse (cached_property): the same interaction read from the other residue"""
+    target = "BasePair3D.reverse"
+    params = {"self": "rec[BasePair3D]"}
+    requires = []
+    returns = "rec[BasePair3D]"
+    ensures = ["result.nt1 == self.nt2 and result.nt2 == self.nt1 and result.nt1_3d == self.nt2_3d and result.nt2_3d == self.nt1_3d",
+               "result.lw == self.lw.reverse", "result.saenger == self.saenger"]
+    ensures_labels = {0: "residues-swapped", 1: "class-reversed", 2: "saenger-kept"}
+    raises = []
+    modifies = []
+
+
+@spec
+def resolvable(m, b):
+    return not is_none(found(m, b.nt1)) and not is_none(found(m, b.nt2))
+
+
+@spec
+def is_lift(m, x, b):
+    """x is the 3D lifting of the input entry b"""
+    return (x.nt1 == b.nt1 and x.nt2 == b.nt2 and x.lw == b.lw and x.saenger == b.saenger
+            and found(m, b.nt1) == x.nt1_3d and found(m, b.nt2) == x.nt2_3d)
+
+
+@spec
+def is_rev_lift(m, x, b):
+    """x is the reverse of the 3D lifting of the input entry b"""
+    return (x.nt1 == b.nt2 and x.nt2 == b.nt1 and x.lw == b.lw.reverse and x.saenger == b.saenger
+            and found(m, b.nt2) == x.nt1_3d and found(m, b.nt1) == x.nt2_3d)
+
+
+@spec
+def lifted_from(m, L, c):
+    """every element of L is the lifting, or the reversed lifting, of one of the first c input entries (both residues found)"""
+    return forall(lambda k: implies(0 <= k and k < len(L),
+                                    exists(lambda t: 0 <= t and t < c and resolvable(m, m.base_pairs2d[t])
+                                           and (is_lift(m, L[k], m.base_pairs2d[t]) or is_rev_lift(m, L[k], m.base_pairs2d[t])))))
+
+
+@spec
+def lifts_all(m, L, c):
+    """each of the first c input entries with both residues found has its lifting and the reverse of it in L"""
+    return forall(lambda t: implies(0 <= t and t < c and resolvable(m, m.base_pairs2d[t]),
+                                    exists(lambda k: 0 <= k and k < len(L) and is_lift(m, L[k], m.base_pairs2d[t]))
+                                    and exists(lambda k: 0 <= k and k < len(L) and is_rev_lift(m, L[k], m.base_pairs2d[t]))))
+
+
+@spec
+def used_has(U, L):
+    """every element of the list L is in the set U"""
+    return forall(lambda k: implies(0 <= k and k < len(L), L[k] in U))
+
+
+@spec
+def used_only(U, L):
+    """the set U holds nothing but elements of the list L"""
+    return forall(lambda n1, n2, lw, sg, u, v: implies(
+        rec(BasePair3D, nt1=n1, nt2=n2, lw=lw, saenger=sg, nt1_3d=u, nt2_3d=v) in U,
+        exists(lambda k: 0 <= k and k < len(L) and L[k] == rec(BasePair3D, nt1=n1, nt2=n2, lw=lw, saenger=sg, nt1_3d=u, nt2_3d=v))))
+
+
+class base_pairs_body(base_pairs_callee):
+    """Mapping2D3D.base_pairs verified against its body (everything its callers are told, except the cached-value rule)"""
+    locals = {"result": "list[rec[BasePair3D]]", "used": "set[rec[BasePair3D]]"}
+    ensures = [
+        # "each once": duplicated / reversed-duplicate entries do not repeat
+        "distinct(result)",
+        # only liftings of input entries whose two residues exist ("dangling entries" are dropped), in both orientations
+        "lifted_from(self, result, len(self.base_pairs2d))",
+        "lifts_all(self, result, len(self.base_pairs2d))",
+        "implies(no_self_pairs(self), no_self(result))",
+    ]
+    ensures_labels = {0: "each-once", 1: "only-resolvable-input-pairs", 2: "every-resolvable-pair-and-its-reverse", 3: "no-self-pairs"}
+    loops = {0: {"index": "c", "inv": ["used_has(used, result)", "used_only(used, result)", "distinct(result)", "lifted_from(self, result, c)", "lifts_all(self, result, c)"]}}
+    ghost = [
+        {"when": "after", "at": "bp = BasePair3D(", "label": "lifted", "do": ["assert resolvable(self, base_pair) and is_lift(self, bp, base_pair)"]},
+        {"when": "after", "at": "result.append(bp)", "label": "appended",
+         "do": ["assert result[len(result) - 1] == bp and is_lift(self, result[len(result) - 1], base_pair)", "assert distinct(result)"]},
+        {"when": "after", "at": "used.add(bp)", "label": "used", "do": ["assert used_has(used, result)", "assert used_only(used, result)"]},
+        {"when": "after", "at": "result.append(bp.reverse)", "label": "appended-reverse",
+         "do": ["assert is_rev_lift(self, result[len(result) - 1], base_pair)", "assert distinct(result)"]},
+        {"when": "after", "at": "used.add(bp.reverse)", "label": "used-reverse", "do": ["assert used_has(used, result)", "assert used_only(used, result)"]},
+    ]
 
 
 _BP = "self.base_pairs_value"
@@ -453,10 +556,12 @@ class generated_bpseq_data(generate_bpseq):
         # "takes every pair from the canonical input pairs"
         f"forall(lambda x: implies(1 <= x and x <= len({_E}) and {_E}[x - 1].pair != 0, x in {_M} and {_E}[x - 1].pair in {_M}"
         f" and exists(lambda a: 0 <= a and a < len({_BP}) and {_BP}[a].is_canonical and linked({_BP}, a, {_M}[x], {_M}[{_E}[x - 1].pair]))))",
-        # "keeps every canonical pair that conflicts with no other": a canonical pair (given in the orientation nt1 < nt2) none
-        # of whose residues occurs in another such pair is present whenever both residues are numbered
+        # "keeps every canonical pair that conflicts with no other": a canonical pair (taken in its orientation nt1 < nt2; both
+        # orientations are always in the list) is present whenever no canonical entry competes with it for a residue (entries
+        # joining the same two residues - duplicates, reversed duplicates, other classes - are not competitors) and both of its
+        # residues are numbered
         f"forall(lambda a, x, y: implies(0 <= a and a < len({_BP}) and canon({_BP}[a])"
-        f" and forall(lambda b: implies(0 <= b and b < len({_BP}) and canon({_BP}[b]) and {_BP}[b] != {_BP}[a], not shares({_BP}[a], {_BP}[b])))"
+        f" and forall(lambda b: implies(0 <= b and b < len({_BP}) and {_BP}[b].is_canonical, not conflict({_BP}[a], {_BP}[b])))"
         f" and x in {_M} and y in {_M} and {_M}[x] == {_BP}[a].nt1_3d and {_M}[y] == {_BP}[a].nt2_3d,"
         f" {_E}[x - 1].pair == y and {_E}[y - 1].pair == x))",
         "fresh(result[0])",
@@ -480,8 +585,8 @@ class generated_bpseq_data(generate_bpseq):
                 "assert distinct(C0)", "assert no_self(C0)"]},
         {"when": "before", "at": "for pairs in matches.values()", "label": "snapshot", "do": ["let CAN = canonical"]},
         {"when": "before", "at": "return self.__generate_bpseq(canonical)", "label": "final",
-         "do": [f"assert forall(lambda b: implies(0 <= b and b < len(canonical), exists(lambda p: 0 <= p and p < len({_BP}) and {_BP}[p] == canonical[b] and canon({_BP}[p]))))"]},
-        {"when": "after", "at": "if len(pairs) > 1", "label": "no-conflict-here",
+         "do": [f"assert forall(lambda b: implies(0 <= b and b < len(canonical), exists(lambda p: 0 <= p and p < len({_BP}) and {_BP}[p] == canonical[b] and {_BP}[p].is_canonical)))"]},
+        {"when": "after", "at": "if len(pairs) >", "label": "no-conflict-here",
          "do": ["let KEY2 = list(matches.keys())[c2]",
                 "assert KEY2 in matches",
                 "assert forall(lambda a: implies(0 <= a and a < len(canonical) and touches(canonical[a], KEY2), canonical[a] in pairs))",
@@ -492,6 +597,7 @@ class generated_bpseq_data(generate_bpseq):
                 "assert KEY in matches and pairs[0] in matches[KEY] and pairs[-1] in matches[KEY]",
                 "assert exists(lambda q: 0 <= q and q < len(canonical) and canonical[q] == pairs[0]) and touches(pairs[0], KEY)",
                 "assert exists(lambda q: 0 <= q and q < len(canonical) and canonical[q] == pairs[-1]) and touches(pairs[-1], KEY)",
+                "assert exists(lambda a2: 0 <= a2 and a2 < len(C0) and C0[a2] == pairs[0])",
                 "assert shares(pairs[-1], pairs[0])"]},
     ]
 
@@ -500,5 +606,7 @@ CONTRACTS = {
     "Residue3D.is_connected": is_connected,
     "Mapping2D3D.__generate_bpseq": generate_bpseq,
     "Mapping2D3D.base_pairs": base_pairs_callee,
+    "Mapping2D3D.base_pairs@body": base_pairs_body,
+    "BasePair3D.reverse": reverse,
     "Mapping2D3D._generated_bpseq_data": generated_bpseq_data,
 }
